@@ -4,12 +4,12 @@ import time
 from framework.checklib import CorrResult
 from harness import gen, histcorr, semoracle
 
-from translator import t9_circuit_core
+from translator import t9_circuit_core, t10_circuit_algos
 
 ID = 'C19'
-TRANSLATORS = [t9_circuit_core.translate]
+TRANSLATORS = [t9_circuit_core.translate, t10_circuit_algos.translate]
 PROPERTY_FILE = 'Properties/C19.v'
-THEOREMS = ['C19_rename_outcome', 'C19_rename_ok_iff', 'C19_rename_references', 'C19_rename_semantics',
+THEOREMS = ['C19_replace_subcircuit_regenerated', 'C19_rename_outcome', 'C19_rename_ok_iff', 'C19_rename_references', 'C19_rename_semantics',
             'C19_rename_semantics_renamed_assignment', 'C19_rename_truth_table',
             'C19_rename_evaluate', 'C19_rename_get_truth_table', 'C19_rename_get_truth_table_returns',
             'C19_replace_inputs_state', 'C19_replace_inputs_well_formed', 'C19_replace_inputs_cofactor',
